@@ -1,7 +1,9 @@
 (** * C14 — Arrowheads, bullets and rounded corners sit and point where the text says.
-    Statements only; sweeps and proofs in Theory/ArrowTheory.v (re-run on regenerated tables). *)
-Require Import SB.Model.Base SB.Model.Geom SB.Model.Fragment SB.Model.Property SB.Theory.ArrowTheory
-  SB.Gen.AsciiMap SB.Gen.UnicodeMap.
+    Statements only; sweeps and proofs in Theory/ArrowTheory.v and Theory/CornerTheory.v (re-run on
+    regenerated tables). *)
+Require Import SB.Model.Base SB.Model.Geom SB.Model.Fragment SB.Model.Property SB.Theory.ArrowTheory SB.Theory.CornerTheory
+  SB.Gen.AsciiMap SB.Gen.UnicodeMap SB.Model.FragBuf SB.Model.Endorse SB.Theory.ArrowSweep SB.Theory.BulletSweep SB.Theory.ArrowContext SB.Theory.BoxSweep SB.Theory.RoundedSweep
+  SB.Theory.ShiftTheory SB.Theory.ShiftFrag SB.Theory.SepTheory SB.Theory.SepOrder.
 
 (** Arrowheads.  Every table entry that fires when a line arrives from a neighbour (its
     condition is "the neighbour in direction d has a line over the segment a-b") and draws a
@@ -26,9 +28,74 @@ Theorem C14_bullet_marks_the_line_end_at_its_centre :
                  /\ (keep = lstart l \/ keep = lend l).
 Proof. exact merge_circle_spec. Qed.
 
-(** Rounded corners (arc end points meet the adjoining lines, centre on the inner side) and the
-    statements for whole drawings (one polygon per arrow, the bullet not shown as text) are
-    decided by the correspondence and the oracle of this check. *)
+(** Rounded corners.  Every quarter arc of the tables (a right-angle arc: |dx| = |dy| = r; 13 in
+    the behaviour table, 4 box-drawing corners): its centre, the corner of the chord's box on
+    the side the sweep flag selects, is at distance r from both ends; and at each end the arc
+    is continued by a line tangent to it (perpendicular to the radius there, so the outline is
+    continuous and smooth and the arc bulges away from the centre, which therefore lies on the
+    inner side of the corner): a line of the same behaviour ending there, or the neighbour's
+    line that the firing condition requires to pass through that point of the cell boundary
+    ([C14_condition_puts_a_line_there]), or for the unconditional box-drawing corners the
+    mid-point of the cell edge with the tangent along the axis. *)
+Theorem C14_rounded_corners_join_their_lines : corners_ok = true /\ right_angle_arcs_of_tables = 17%nat.
+Proof. split; [exact corners_sweep|vm_compute; reflexivity]. Qed.
+Theorem C14_condition_puts_a_line_there :
+  forall env cd c p, tangent_cond cd c p = true -> eval env cd = true ->
+    exists d lvl a b, prop_line_overlap (env d) lvl a b = true /\ on_seg a b (to_nb d p) = true
+                      /\ dot (psub b a) (psub p c) = 0 /\ a <> b.
+Proof. exact tangent_cond_fires. Qed.
+
+(** Whole drawings, through the whole recognition of the model (grouping, tables, merging, contact groups, endorsement).
+    [acases]: '-' with '>' to its right or '<' to its left, '|' with '^' above or 'v'/'V' below, a diagonal with '^' at its
+    upper or 'v'/'V' at its lower end, and '-' / '|' with the triangle glyphs; [arrow_cells k L]: a run of L line characters
+    and the arrowhead after it in the direction of the case.  For every case and every L in 1..40 the recognition gives
+    exactly one line and one polygon and no group, and [arrow_pair_ok]: the line is solid, starts where the run starts and
+    ends inside the arrowhead's cell; the polygon is filled, carries exactly one arrow tag, has a unique tip farthest along
+    the direction, which lies on the line's axis strictly beyond both ends of the line, inside the arrowhead's cell, and
+    its other vertices lie strictly on both sides of the axis. *)
+Theorem C14_arrow_at_the_end_of_a_run :
+  forall k L, In k acases -> (1 <= L <= 40)%nat ->
+    exists f g l p, endorse_cells (arrow_cells k L) = Ok ([f; g], [])
+      /\ ((fs_frag f = FLine l /\ fs_frag g = FPolygon p) \/ (fs_frag f = FPolygon p /\ fs_frag g = FLine l))
+      /\ arrow_pair_ok k L l p = true.
+Proof. exact arrow_recognised. Qed.
+
+(** ... anywhere on the page and next to anything that does not touch it ([separated]: no cell of the arrow is adjacent to
+    a cell of the rest): exactly that line and that polygon, moved, come from its cells, and no contact group. *)
+Theorem C14_arrow_anywhere_in_context :
+  forall k L (dx dy : Z) (inA : cell -> bool) cells acc groups,
+    In k acases -> (1 <= L <= 40)%nat ->
+    separated inA cells -> filter (fun e => inA (fst e)) cells = map (shift_cc dx dy) (arrow_cells k L) ->
+    endorse_cells cells = Ok (acc, groups) ->
+    exists f g l p, map fs_frag (filter (fsside inA) acc) = [shift_frag dx dy (fs_frag f); shift_frag dx dy (fs_frag g)]
+      /\ filter (cside inA) groups = []
+      /\ ((fs_frag f = FLine l /\ fs_frag g = FPolygon p) \/ (fs_frag f = FPolygon p /\ fs_frag g = FLine l))
+      /\ arrow_pair_ok k L l p = true.
+Proof. exact arrow_recognised_in_context. Qed.
+
+(** [bcases]: each of the eight directions with each of '*', 'o', 'O' after the run.  For every case and every L in 1..40
+    [bullet_chk]: the recognition gives no group and no text; its first fragment is a solid marked line whose marked end
+    is the centre of the bullet's cell, marked with the bullet's kind and not marked at the other end, which lies on the
+    segment from the start of the run to that centre (and is the start of the run when the bullet is to the right of or
+    below the run); every other fragment is an unmarked line on that segment. *)
+Theorem C14_bullet_at_the_end_of_a_run :
+  forall k L, In k bcases -> (1 <= L <= 40)%nat -> bullet_chk k L = true.
+Proof. exact bullet_recognised. Qed.
+Example C14_cases_nonvacuous : List.length acases = 15%nat /\ List.length bcases = 24%nat.
+Proof. split; reflexivity. Qed.
+
+(** Rounded outlines with a stub attached (so that they are not turned into one rectangle).  [outline_chk s w h st]: on the
+    box of style [s] with w x h interior cells and a '-' stub on its left or right side the recognition gives no single
+    fragment and ONE contact group of exactly four arcs and five solid lines; every arc is a quarter arc of radius half
+    a cell width whose centre is at that distance from both ends and lies strictly inside the outline (it bulges
+    outward), and at each end of each arc a line of the group ends at that very point, at a right angle to the radius;
+    four of the lines join two arc ends each.  For the two ASCII rounded styles, every size 1..12 x 1..6, both stubs. *)
+Theorem C14_rounded_outline_is_continuous :
+  forall s st w h, In s rounded_styles -> (1 <= w <= 12)%nat -> (1 <= h <= 6)%nat -> outline_chk s w h st = true.
+Proof. exact rounded_outline_recognised. Qed.
+
+(** Larger outlines, the box-drawing corners in whole drawings and marks in the middle of a line are decided by the
+    correspondence and the oracle of this check (with the corner sweep above). *)
 Example C14_nonvacuous :
   arrow_geometry_ok (P 40 0) (P (-10) 40) (P 0 40) [P 0 20; P 40 40; P 0 60] = true.
 Proof. vm_compute. reflexivity. Qed.
